@@ -64,7 +64,11 @@ func GenC04(seed uint64, run int) *Trace {
 	for i := 0; i < n; i++ {
 		var op Op
 		if restarts && !closedBias && r.Chance(1, 8) {
-			t.Ops = append(t.Ops, Op{Kind: Pick(r, []string{"restart_clean", "restart_final"})})
+			rop := Op{Kind: Pick(r, []string{"restart_clean", "restart_final"})}
+			if r.Chance(1, 3) {
+				rop.Arg = 1 // reopen with the same roots in another order
+			}
+			t.Ops = append(t.Ops, rop)
 			continue
 		}
 		v := r.Intn(100)
